@@ -629,7 +629,10 @@ def _get_enum_mapping(cls):
     optionals =  {
         k: getattr(getattr(v, "_fields")[0], "_enum_class")
         for k, v in cls.get_all_fields_by_name().items()
-        if isinstance(v, AnyOf) and getattr(v, "_is_optional", False) and isinstance(getattr(v, "_fields")[0], Enum)
+        if isinstance(v, AnyOf)
+        and getattr(v, "_is_optional", False)
+        and isinstance(getattr(v, "_fields")[0], Enum)
+        and getattr(getattr(v, "_fields")[0], "_is_enum", False)
     }
     return {**without_optionals, **optionals}
 
